@@ -65,6 +65,13 @@ CLAIMS = {
         note=TB + 'NOT covered: construction order, field initialisers, vtable building and virtual dispatch, super calls, static fields, generics, destructor chains (unordered_map / shared_ptr / recursion through exec are outside the lowering); the candidate '
              'collection loops; and the stamping of a reference with its DECLARED class at declaration / parameter binding - observed defect: `A a = new Sub(); k.g(a)` runs g(Sub) although the analyser resolved g(A) (native oracle, label site.binding.*).',
         ref='DESIGN.md §4 C08'),
+    'C09': dict(
+        text='Kernel only, with ghost state: the scope-stack walk of RuntimeEvaluator::lookup and ::assign is proved to find / write the innermost binding of the name and to leave every other entry untouched (ghost scope and entry index, loop '
+             'invariants); the property clause itself - the binding used never lies below the frame base of the current call (ghost g_fb) - is an obligation that FAILS on this code base and is reported as two KNOWN-FINDINGs (dynamic scoping of lookup / of assign) '
+             'with a replay on the real interpreter; any other failing obligation is still a VIOLATION.',
+        note=TB + 'The frame base is a free ghost parameter (its definition - call / callMethod / runConstructorChain push exactly one scope - is not verified). NOT covered: the part of lookup/assign after the walk (fields, statics, class names), '
+             'the analyser\'s resolution order, and the renaming corollary (a written argument over these contracts).',
+        ref='DESIGN.md §4 C09'),
     'C12': dict(
         text='Kernel only: (a) every lowered unit (SIM, LEX, UPD, QBK, ARITH, PTAB) carries CBMC bounds / pointer / division / shift obligations on every harness: for any input satisfying the stated invariants those functions never index out of range; '
              '(b) the arithmetic branches of eval can only end in a value or a located Runtime error: explicit no-trap obligations on every signed / and % (INT_MIN / -1, x / 0), no raw C++ exception from literal conversion '
